@@ -125,8 +125,9 @@ CHECKS = {
             "multi": [{"engine": "e_static", "prop": "C02"}, {"engine": "e_variants", "prop": "C08"}, {"engine": "e_variants", "prop": "C09"},
                       {"engine": "e_variants", "prop": "C10"}, {"engine": "e_mapped", "prop": "C11"}, {"engine": "e_mapped", "prop": "C12"},
                       {"engine": "e_multidim", "prop": "C13"}, {"engine": "e_multidim", "prop": "C14"}, {"engine": "e_dynamic", "prop": "C06"},
-                      {"engine": "e_dynamic", "prop": "C05"}, {"engine": "e_cif", "prop": "C18"}, {"engine": "e_copy", "prop": "C19"}],
-            "rule": ("the generators of C02, C05, C06, C08-C14, C18 and C19 (copy/move scripts) in --mode mem (semantic mismatches ignored, AddressSanitizer is the oracle; build -O1 -g "
+                      {"engine": "e_dynamic", "prop": "C05"}, {"engine": "e_cif", "prop": "C18"}, {"engine": "e_copy", "prop": "C19"},
+                      {"engine": "e_seg", "prop": "C03"}],
+            "rule": ("the generators of C02, C03, C05, C06, C08-C14, C18 and C19 (copy/move scripts) in --mode mem (semantic mismatches ignored, AddressSanitizer is the oracle; build -O1 -g "
                      "-fsanitize=address, detect_stack_use_after_return=1, leak detection off), every other case with a size hint <= 12 (n = 1, 2, 3 ...), "
                      "queries at lowest(), first-1, last+1, max-1, empty dynamic containers, iterators driven to end(), boxes reaching the last stored point; "
                      "plus every file of replays/regress/*. non-trivial: n <= 3 or data touching lowest()/max-1 or a chunked build or a query outside "
